@@ -221,9 +221,10 @@ def match_known(known, prop, rec):
     for k in known:
         if prop not in k["property"].split(","):
             continue
-        m = k["match"]
-        if all(_get(rec, key) == val for key, val in m.items()):
-            return k
+        alts = k["match"] if isinstance(k["match"], list) else [k["match"]]
+        for m in alts:
+            if all(_get(rec, key) == val for key, val in m.items()):
+                return k
     return None
 
 
